@@ -611,9 +611,21 @@ func init() {
 				if o[0].Cmp(pow) >= 0 || o[1].Cmp(upBound) >= 0 {
 					return false
 				}
+				// "v = lower + 2^split * upper" is an equality of integers (v the canonical representative): the
+				// package comment on the full-width case insists that the recomposed value must not overflow the field
 				r := new(big.Int).Mul(o[1], pow)
 				r.Add(r, o[0])
-				return r.Mod(r, q).Cmp(v) == 0
+				return r.Cmp(v) == 0
+			}
+			// the slices of v + p: the classic second decomposition when the width reaches the field bit length
+			vp := new(big.Int).Add(v, q)
+			aliasUp, aliasLo := new(big.Int), new(big.Int)
+			aliasUp.QuoRem(vp, pow, aliasLo)
+			if vp.BitLen() <= width {
+				s.Classes = append(s.Classes, "v+p<2^width")
+			}
+			if digits == q.BitLen() {
+				s.Classes = append(s.Classes, "digits=field-bitlen")
 			}
 			fits := v.BitLen() <= width
 			if !fits {
@@ -633,6 +645,7 @@ func init() {
 				s.Pred = func(o []*big.Int) bool { return true }
 			case fits:
 				s.Kind, s.MustSat, s.Pred = kPred, true, pred
+				s.Wrong = append(s.Wrong, vals(new(big.Int).Mod(aliasLo, q), new(big.Int).Mod(aliasUp, q)))
 				s.Wrong = append(s.Wrong,
 					vals(new(big.Int).Mod(new(big.Int).Add(lo, pow), q), new(big.Int).Mod(new(big.Int).Sub(up, bi(1)), q)),
 					vals(new(big.Int).Mod(new(big.Int).Sub(lo, pow), q), new(big.Int).Mod(new(big.Int).Add(up, bi(1)), q)))
